@@ -62,26 +62,81 @@ theorem spanB_all (p : UInt8 → Bool) (w rest : Bytes) (hw : ∀ c ∈ w, p c =
 
 /-! ### string constants -/
 
-/-- what may follow a string constant: the end, or a byte that is neither a quote nor white space -/
-def StrBoundary (rest : Bytes) : Prop := ∀ c, rest.head? = some c → c ≠ 39 ∧ isSpace c = false
+/-- what may follow a string constant: the end, or a byte that is neither a quote, nor white space, nor a dash (which
+could open a comment: white space and comments followed by a quote continue the constant) -/
+def StrBoundary (rest : Bytes) : Prop := ∀ c, rest.head? = some c → c ≠ 39 ∧ isSpace c = false ∧ c ≠ 45
 
 theorem contAfterString_false (rest : Bytes) (hb : StrBoundary rest) : contAfterString rest = false := by
   cases rest with
   | nil => rfl
   | cons c t =>
-    have h := (hb c rfl).2
-    simp [contAfterString, spanB, h]
+    obtain ⟨h1, h2, h3⟩ := hb c rfl
+    simp [contAfterString, contScan, h1, h2, h3]
+
+theorem escapeE_cons (c : UInt8) (s : Bytes) : (c :: s).flatMap escapeEByte = escapeEByte c ++ s.flatMap escapeEByte := by
+  simp
+
+/-- an escape-string body in which every quote and every backslash is doubled, followed by a single quote and something
+that is not a quote, reads back as the original bytes and stops exactly after the closing quote -/
+theorem scanEscaped_escape (s rest : Bytes) (hr : rest.head? ≠ some 39) :
+    scanEscaped (s.flatMap escapeEByte ++ 39 :: rest) = some (s, rest) := by
+  induction s with
+  | nil =>
+    cases rest with
+    | nil => simp [scanEscaped]
+    | cons c2 t =>
+      have : c2 ≠ 39 := by intro h; apply hr; simp [h]
+      simp [scanEscaped, this]
+  | cons c s ih =>
+    rw [escapeE_cons]
+    by_cases hq : c = 39
+    · subst hq
+      simp only [escapeEByte, if_true, List.cons_append, List.nil_append, scanEscaped, ih, Option.map_some]
+    · by_cases hb : c = 92
+      · subst hb
+        simp only [escapeEByte, show ((92 : UInt8) = 39) = False by decide, if_false, if_true, List.cons_append,
+          List.nil_append, scanEscaped, ih, Option.map_some]
+      · simp only [escapeEByte, hq, hb, if_false, List.cons_append, List.nil_append]
+        cases h : s.flatMap escapeEByte ++ 39 :: rest with
+        | nil => simp at h
+        | cons c2 t =>
+          rw [scanEscaped]
+          simp only [hq, hb, if_false]
+          rw [← h, ih]
+          rfl
 
 theorem next_quoteLiteral (s rest : Bytes) (hb : StrBoundary rest) :
     next (quoteLiteral s ++ rest) = some (some (.str s), rest) := by
   have hr : rest.head? ≠ some 39 := by
     intro h; exact (hb 39 h).1 rfl
-  have h39 : isSpace 39 = false := by decide
-  simp only [quoteLiteral, List.cons_append, List.append_assoc, List.nil_append, next, h39]
-  simp only [show ((39 : UInt8) = 45) = False by decide, show ((39 : UInt8) = 47) = False by decide, false_and, if_false,
-    Bool.false_eq_true, if_true]
-  rw [scanQuoted_escape 39 s rest hr]
-  simp [contAfterString_false rest hb]
+  unfold quoteLiteral
+  by_cases hbs : s.contains 92 = true
+  · -- E'…'
+    rw [if_pos hbs]
+    have h69 : isSpace 69 = false := by decide
+    have hd : isDigit 69 = false := by decide
+    have hi : isIdentStart 69 = true := by decide
+    have hspan : spanB isIdentCont (69 :: 39 :: (s.flatMap escapeEByte ++ [39] ++ rest)) =
+        ([69], 39 :: (s.flatMap escapeEByte ++ [39] ++ rest)) := by
+      simp [spanB, show isIdentCont 69 = true by decide, show isIdentCont 39 = false by decide]
+    simp only [List.cons_append, next, h69, hd, hi]
+    simp only [show ((69 : UInt8) = 45) = False by decide, show ((69 : UInt8) = 47) = False by decide,
+      show ((69 : UInt8) = 39) = False by decide, show ((69 : UInt8) = 34) = False by decide,
+      show ((69 : UInt8) = 36) = False by decide, show ((69 : UInt8) = 46) = False by decide,
+      false_and, false_or, if_false, Bool.false_eq_true, if_true, hspan]
+    have hfold : fold [69] = [101] := by decide
+    simp only [hfold, List.head?_cons, beq_self_eq_true, and_self, if_true, List.drop_succ_cons, List.drop_zero]
+    rw [List.append_assoc, List.singleton_append, scanEscaped_escape s rest hr]
+    simp [contAfterString_false rest hb]
+  · -- '…'
+    rw [if_neg hbs]
+    have hbs' : ¬ 92 ∈ s := by simpa using hbs
+    have h39 : isSpace 39 = false := by decide
+    simp only [List.cons_append, List.append_assoc, List.nil_append, next, h39]
+    simp only [show ((39 : UInt8) = 45) = False by decide, show ((39 : UInt8) = 47) = False by decide, false_and, if_false,
+      Bool.false_eq_true, if_true]
+    rw [scanQuoted_escape 39 s rest hr]
+    simp [contAfterString_false rest hb, hbs']
 
 /-! ### quoted identifiers -/
 
